@@ -392,10 +392,15 @@ class Hist(object):
         while turns < TURN_LIMIT:
             if done.wait(min(0.0001 * (1 << min(idle, 6)), 0.005)):
                 break
+            n0 = len(cap)
             c = self.lp.pump()
             turns += 1
             if on_turn:
                 on_turn()
+            new = cap[n0:]
+            if c and new and all(f["t"] == "SNL" and not f["sdreq"] and not f["sdres"] for _d, f in new):
+                c = 0          # only SNL PDUs without any request or answer were exchanged: nothing progresses
+                self.R.count("turns_with_empty_snl_only")
             idle = 0 if c else idle + 1
             if not c:
                 self.inflight = False
@@ -1099,9 +1104,16 @@ class Hist(object):
             elif self.hang_kind == "never-sent" and self.fits_snl(end, name) and name not in peer.tainted_name:
                 self.report("resolve/request-never-sent", "resolve(%r): the caller waits un-notified, the link fell "
                             "idle, the request never appeared on the wire although it fits one SNL PDU" % name)
+            elif self.hang_kind == "never-sent" and name not in peer.tainted_name:
+                self.report("resolve/request-never-sent/name-exceeds-snl-pdu",
+                            "resolve(<%d octet name>): the request can never be sent (it exceeds the peer's link MIU), the "
+                            "caller is neither answered nor refused: it waits un-notified on an idle, live link" % len(name))
             else:
                 self.R.inconc("resolve() helper did not return within the turn bound")
             self.stop = True      # the parked helper thread stays inside llc.resolve
+            return
+        if out[0] != "ok" and not self.fits_snl(end, name) and type(out[-1]).__module__.startswith("nfc.llcp") and isinstance(out[-1], IOError):
+            self.R.count("resolve_oversize_name_refused")      # a request that cannot be sent is refused: a report
             return
         if out[0] != "ok":
             self.report("resolve/escape/" + (exc_sig(out[-1])), "resolve(%r) raised %r" % (name, out[-1]))
@@ -2124,6 +2136,8 @@ class Gen(object):
             name = rng.choice(self.pool + WKS_NAMES)
         elif r < 0.93:
             name = rng.choice([n for n in INVALID_NAMES if n])
+        elif r < 0.965:
+            name = "urn:nfc:sn:" + "n" * (255 - 11 - rng.choice([0, 0, 1, 9]))    # request longer than a 248 octet link MIU
         else:
             name = "urn:nfc:sn:unknown%d" % rng.randrange(3)
         return ["resolve", end, name]
